@@ -90,7 +90,6 @@ static_harness!(c01_q_st_se_def_n2g14_x_pl, n=2, words=1, unwind=6, Sem::ST, Enc
 static_harness!(c01_q_gr_se_def_n2g2_x_s1, n=2, words=1, unwind=6, Sem::GR, Enc::Default, Kind::SE, Pres::SparseFirst, cert=false, ANSWER, qs=[[]], fault=0, codes=[2]);
 static_harness!(c01_q_gr_se_def_n2g6_x_du, n=2, words=1, unwind=6, Sem::GR, Enc::Default, Kind::SE, Pres::Dup, cert=false, ANSWER, qs=[[]], fault=0, codes=[6]);
 static_harness!(c01_q_gr_se_def_n2g10_x_pl, n=2, words=1, unwind=6, Sem::GR, Enc::Default, Kind::SE, Pres::Plain, cert=false, ANSWER, qs=[[]], fault=0, codes=[10]);
-static_harness!(c01_x_co_se_def_n2g14_x_s2, n=2, words=1, unwind=6, Sem::CO, Enc::Default, Kind::SE, Pres::SparseMid, cert=false, ANSWER, qs=[[]], fault=0, codes=[14]);
 static_harness!(c01_q_st_se_def_n3g42_x_pl, n=3, words=1, unwind=7, Sem::ST, Enc::Default, Kind::SE, Pres::Plain, cert=false, ANSWER, qs=[[]], fault=0, codes=[42]);
 static_harness!(c01_t_st_se_def_n2g9_x_pl, n=2, words=1, unwind=6, Sem::ST, Enc::Default, Kind::SE, Pres::Plain, cert=false, ANSWER, qs=[[]], fault=0, codes=[9]);
 static_harness!(c01_t_st_se_def_n2g2_x_pl, n=2, words=1, unwind=6, Sem::ST, Enc::Default, Kind::SE, Pres::Plain, cert=false, ANSWER, qs=[[]], fault=0, codes=[2]);
@@ -207,7 +206,6 @@ static_harness!(c04_q_st_ds_def_n2g6_a_pl_cert, n=2, words=1, unwind=6, Sem::ST,
 static_harness!(c04_q_st_ds_def_n2g10_a_pl_cert, n=2, words=1, unwind=6, Sem::ST, Enc::Default, Kind::DS, Pres::Plain, cert=true, CERT, qs=[[0]], fault=0, codes=[10]);
 static_harness!(c04_q_st_ds_def_n2g2_b_pl_cert, n=2, words=1, unwind=6, Sem::ST, Enc::Default, Kind::DS, Pres::Plain, cert=true, CERT, qs=[[1]], fault=0, codes=[2]);
 static_harness!(c04_x_co_dc_aux_n2g6_a_pl_cert, n=2, words=1, unwind=7, Sem::CO, Enc::AuxCo, Kind::DC, Pres::Plain, cert=true, CERT, qs=[[0]], fault=0, codes=[6]);
-static_harness!(c04_x_co_dc_aux_n2g14_a_s1_cert, n=2, words=1, unwind=7, Sem::CO, Enc::AuxCo, Kind::DC, Pres::SparseFirst, cert=true, CERT, qs=[[0]], fault=0, codes=[14]);
 static_harness!(c04_q_gr_ds_def_n2g2_b_pl_cert, n=2, words=1, unwind=6, Sem::GR, Enc::Default, Kind::DS, Pres::Plain, cert=true, CERT, qs=[[1]], fault=0, codes=[2]);
 static_harness!(c04_q_gr_dc_def_n2g2_a_s2_cert, n=2, words=1, unwind=6, Sem::GR, Enc::Default, Kind::DC, Pres::SparseMid, cert=true, CERT, qs=[[0]], fault=0, codes=[2]);
 static_harness!(c04_t_st_dc_def_n2g2_a_pl_cert, n=2, words=1, unwind=6, Sem::ST, Enc::Default, Kind::DC, Pres::Plain, cert=true, CERT, qs=[[0]], fault=0, codes=[2]);
@@ -233,7 +231,6 @@ static_harness!(c04_t_st_ds_def_n3g42_b_pl_cert, n=3, words=1, unwind=7, Sem::ST
 static_harness!(c04_t_st_ds_def_n3g34_b_pl_cert, n=3, words=1, unwind=7, Sem::ST, Enc::Default, Kind::DS, Pres::Plain, cert=true, CERT, qs=[[1]], fault=0, codes=[34]);
 static_harness!(c07_x_co_dc_aux_n2g6_ab_pl_cert, n=2, words=1, unwind=7, Sem::CO, Enc::AuxCo, Kind::DC, Pres::Plain, cert=true, CERT, qs=[[0, 1]], fault=0, codes=[6]);
 static_harness!(c07_x_co_dc_aux_n2g0_ab_pl_cert, n=2, words=1, unwind=7, Sem::CO, Enc::AuxCo, Kind::DC, Pres::Plain, cert=true, CERT, qs=[[0, 1]], fault=0, codes=[0]);
-static_harness!(c07_x_co_dc_aux_n2g14_ba_pl_cert, n=2, words=1, unwind=7, Sem::CO, Enc::AuxCo, Kind::DC, Pres::Plain, cert=true, CERT, qs=[[1, 0]], fault=0, codes=[14]);
 static_harness!(c07_q_co_dc_aux_n2g6_ab_pl, n=2, words=1, unwind=7, Sem::CO, Enc::AuxCo, Kind::DC, Pres::Plain, cert=false, ANSWER, qs=[[0, 1]], fault=0, codes=[6]);
 static_harness!(c07_q_st_dc_def_n2g2_ba_pl_cert, n=2, words=1, unwind=6, Sem::ST, Enc::Default, Kind::DC, Pres::Plain, cert=true, CERT, qs=[[1, 0]], fault=0, codes=[2]);
 static_harness!(c07_q_st_dc_def_n2g9_aa_pl_cert, n=2, words=1, unwind=6, Sem::ST, Enc::Default, Kind::DC, Pres::Plain, cert=true, CERT, qs=[[0, 0]], fault=0, codes=[9]);
@@ -301,21 +298,14 @@ static_harness!(c03_t_pr_ds_adm_n2g0_b_pl, n=2, words=2, unwind=9, Sem::PR, Enc:
 static_harness!(c04_t_pr_ds_adm_n2g0_b_pl_cert, n=2, words=2, unwind=9, Sem::PR, Enc::AuxAdm, Kind::DS, Pres::Plain, cert=true, CERT, qs=[[1]], fault=0, codes=[0]);
 static_harness!(c01_t_pr_se_adm_n3g34_x_pl, n=3, words=8, unwind=11, Sem::PR, Enc::AuxAdm, Kind::SE, Pres::Plain, cert=false, ANSWER, qs=[[]], fault=0, codes=[34]);
 static_harness!(c03_t_pr_ds_adm_n3g34_a_pl, n=3, words=8, unwind=11, Sem::PR, Enc::AuxAdm, Kind::DS, Pres::Plain, cert=false, ANSWER, qs=[[0]], fault=0, codes=[34]);
-static_harness!(c04_t_pr_ds_adm_n3g34_a_pl_cert, n=3, words=8, unwind=11, Sem::PR, Enc::AuxAdm, Kind::DS, Pres::Plain, cert=true, CERT, qs=[[0]], fault=0, codes=[34]);
 static_harness!(c03_t_pr_ds_adm_n3g34_b_pl, n=3, words=8, unwind=11, Sem::PR, Enc::AuxAdm, Kind::DS, Pres::Plain, cert=false, ANSWER, qs=[[1]], fault=0, codes=[34]);
-static_harness!(c04_t_pr_ds_adm_n3g34_b_pl_cert, n=3, words=8, unwind=11, Sem::PR, Enc::AuxAdm, Kind::DS, Pres::Plain, cert=true, CERT, qs=[[1]], fault=0, codes=[34]);
 static_harness!(c03_t_pr_ds_adm_n3g34_c_pl, n=3, words=8, unwind=11, Sem::PR, Enc::AuxAdm, Kind::DS, Pres::Plain, cert=false, ANSWER, qs=[[2]], fault=0, codes=[34]);
-static_harness!(c04_t_pr_ds_adm_n3g34_c_pl_cert, n=3, words=8, unwind=11, Sem::PR, Enc::AuxAdm, Kind::DS, Pres::Plain, cert=true, CERT, qs=[[2]], fault=0, codes=[34]);
 static_harness!(c01_t_pr_se_exp_n2g2_x_pl, n=2, words=1, unwind=7, Sem::PR, Enc::ExpCo, Kind::SE, Pres::Plain, cert=false, ANSWER, qs=[[]], fault=0, codes=[2]);
 static_harness!(c03_t_pr_ds_exp_n2g2_a_pl, n=2, words=1, unwind=7, Sem::PR, Enc::ExpCo, Kind::DS, Pres::Plain, cert=false, ANSWER, qs=[[0]], fault=0, codes=[2]);
-static_harness!(c04_t_pr_ds_exp_n2g2_a_pl_cert, n=2, words=1, unwind=7, Sem::PR, Enc::ExpCo, Kind::DS, Pres::Plain, cert=true, CERT, qs=[[0]], fault=0, codes=[2]);
 static_harness!(c03_t_pr_ds_exp_n2g2_b_pl, n=2, words=1, unwind=7, Sem::PR, Enc::ExpCo, Kind::DS, Pres::Plain, cert=false, ANSWER, qs=[[1]], fault=0, codes=[2]);
-static_harness!(c04_t_pr_ds_exp_n2g2_b_pl_cert, n=2, words=1, unwind=7, Sem::PR, Enc::ExpCo, Kind::DS, Pres::Plain, cert=true, CERT, qs=[[1]], fault=0, codes=[2]);
 static_harness!(c01_t_pr_se_hyb_n2g2_x_pl, n=2, words=1, unwind=7, Sem::PR, Enc::Hybrid, Kind::SE, Pres::Plain, cert=false, ANSWER, qs=[[]], fault=0, codes=[2]);
 static_harness!(c03_t_pr_ds_hyb_n2g2_a_pl, n=2, words=1, unwind=7, Sem::PR, Enc::Hybrid, Kind::DS, Pres::Plain, cert=false, ANSWER, qs=[[0]], fault=0, codes=[2]);
-static_harness!(c04_t_pr_ds_hyb_n2g2_a_pl_cert, n=2, words=1, unwind=7, Sem::PR, Enc::Hybrid, Kind::DS, Pres::Plain, cert=true, CERT, qs=[[0]], fault=0, codes=[2]);
 static_harness!(c03_t_pr_ds_hyb_n2g2_b_pl, n=2, words=1, unwind=7, Sem::PR, Enc::Hybrid, Kind::DS, Pres::Plain, cert=false, ANSWER, qs=[[1]], fault=0, codes=[2]);
-static_harness!(c04_t_pr_ds_hyb_n2g2_b_pl_cert, n=2, words=1, unwind=7, Sem::PR, Enc::Hybrid, Kind::DS, Pres::Plain, cert=true, CERT, qs=[[1]], fault=0, codes=[2]);
 static_harness!(c01_q_sst_se_aux_n2g2_x_pl, n=2, words=4, unwind=10, Sem::SST, Enc::AuxCo, Kind::SE, Pres::Plain, cert=false, ANSWER, qs=[[]], fault=0, codes=[2]);
 static_harness!(c03_q_sst_ds_aux_n2g2_a_pl, n=2, words=4, unwind=10, Sem::SST, Enc::AuxCo, Kind::DS, Pres::Plain, cert=false, ANSWER, qs=[[0]], fault=0, codes=[2]);
 static_harness!(c04_q_sst_ds_aux_n2g2_a_pl_cert, n=2, words=4, unwind=10, Sem::SST, Enc::AuxCo, Kind::DS, Pres::Plain, cert=true, CERT, qs=[[0]], fault=0, codes=[2]);
@@ -336,26 +326,16 @@ static_harness!(c02_t_sst_dc_aux_n2g0_b_pl, n=2, words=4, unwind=10, Sem::SST, E
 static_harness!(c04_t_sst_dc_aux_n2g0_b_pl_cert, n=2, words=4, unwind=10, Sem::SST, Enc::AuxCo, Kind::DC, Pres::Plain, cert=true, CERT, qs=[[1]], fault=0, codes=[0]);
 static_harness!(c01_t_sst_se_aux_n3g34_x_pl, n=3, words=32, unwind=13, Sem::SST, Enc::AuxCo, Kind::SE, Pres::Plain, cert=false, ANSWER, qs=[[]], fault=0, codes=[34]);
 static_harness!(c03_t_sst_ds_aux_n3g34_a_pl, n=3, words=32, unwind=13, Sem::SST, Enc::AuxCo, Kind::DS, Pres::Plain, cert=false, ANSWER, qs=[[0]], fault=0, codes=[34]);
-static_harness!(c04_t_sst_ds_aux_n3g34_a_pl_cert, n=3, words=32, unwind=13, Sem::SST, Enc::AuxCo, Kind::DS, Pres::Plain, cert=true, CERT, qs=[[0]], fault=0, codes=[34]);
 static_harness!(c02_t_sst_dc_aux_n3g34_a_pl, n=3, words=32, unwind=13, Sem::SST, Enc::AuxCo, Kind::DC, Pres::Plain, cert=false, ANSWER, qs=[[0]], fault=0, codes=[34]);
-static_harness!(c04_t_sst_dc_aux_n3g34_a_pl_cert, n=3, words=32, unwind=13, Sem::SST, Enc::AuxCo, Kind::DC, Pres::Plain, cert=true, CERT, qs=[[0]], fault=0, codes=[34]);
 static_harness!(c03_t_sst_ds_aux_n3g34_b_pl, n=3, words=32, unwind=13, Sem::SST, Enc::AuxCo, Kind::DS, Pres::Plain, cert=false, ANSWER, qs=[[1]], fault=0, codes=[34]);
-static_harness!(c04_t_sst_ds_aux_n3g34_b_pl_cert, n=3, words=32, unwind=13, Sem::SST, Enc::AuxCo, Kind::DS, Pres::Plain, cert=true, CERT, qs=[[1]], fault=0, codes=[34]);
 static_harness!(c02_t_sst_dc_aux_n3g34_b_pl, n=3, words=32, unwind=13, Sem::SST, Enc::AuxCo, Kind::DC, Pres::Plain, cert=false, ANSWER, qs=[[1]], fault=0, codes=[34]);
-static_harness!(c04_t_sst_dc_aux_n3g34_b_pl_cert, n=3, words=32, unwind=13, Sem::SST, Enc::AuxCo, Kind::DC, Pres::Plain, cert=true, CERT, qs=[[1]], fault=0, codes=[34]);
 static_harness!(c03_t_sst_ds_aux_n3g34_c_pl, n=3, words=32, unwind=13, Sem::SST, Enc::AuxCo, Kind::DS, Pres::Plain, cert=false, ANSWER, qs=[[2]], fault=0, codes=[34]);
-static_harness!(c04_t_sst_ds_aux_n3g34_c_pl_cert, n=3, words=32, unwind=13, Sem::SST, Enc::AuxCo, Kind::DS, Pres::Plain, cert=true, CERT, qs=[[2]], fault=0, codes=[34]);
 static_harness!(c02_t_sst_dc_aux_n3g34_c_pl, n=3, words=32, unwind=13, Sem::SST, Enc::AuxCo, Kind::DC, Pres::Plain, cert=false, ANSWER, qs=[[2]], fault=0, codes=[34]);
-static_harness!(c04_t_sst_dc_aux_n3g34_c_pl_cert, n=3, words=32, unwind=13, Sem::SST, Enc::AuxCo, Kind::DC, Pres::Plain, cert=true, CERT, qs=[[2]], fault=0, codes=[34]);
 static_harness!(c01_t_sst_se_exp_n2g2_x_pl, n=2, words=1, unwind=8, Sem::SST, Enc::ExpCo, Kind::SE, Pres::Plain, cert=false, ANSWER, qs=[[]], fault=0, codes=[2]);
 static_harness!(c03_t_sst_ds_exp_n2g2_a_pl, n=2, words=1, unwind=8, Sem::SST, Enc::ExpCo, Kind::DS, Pres::Plain, cert=false, ANSWER, qs=[[0]], fault=0, codes=[2]);
-static_harness!(c04_t_sst_ds_exp_n2g2_a_pl_cert, n=2, words=1, unwind=8, Sem::SST, Enc::ExpCo, Kind::DS, Pres::Plain, cert=true, CERT, qs=[[0]], fault=0, codes=[2]);
 static_harness!(c02_t_sst_dc_exp_n2g2_a_pl, n=2, words=1, unwind=8, Sem::SST, Enc::ExpCo, Kind::DC, Pres::Plain, cert=false, ANSWER, qs=[[0]], fault=0, codes=[2]);
-static_harness!(c04_t_sst_dc_exp_n2g2_a_pl_cert, n=2, words=1, unwind=8, Sem::SST, Enc::ExpCo, Kind::DC, Pres::Plain, cert=true, CERT, qs=[[0]], fault=0, codes=[2]);
 static_harness!(c03_t_sst_ds_exp_n2g2_b_pl, n=2, words=1, unwind=8, Sem::SST, Enc::ExpCo, Kind::DS, Pres::Plain, cert=false, ANSWER, qs=[[1]], fault=0, codes=[2]);
-static_harness!(c04_t_sst_ds_exp_n2g2_b_pl_cert, n=2, words=1, unwind=8, Sem::SST, Enc::ExpCo, Kind::DS, Pres::Plain, cert=true, CERT, qs=[[1]], fault=0, codes=[2]);
 static_harness!(c02_t_sst_dc_exp_n2g2_b_pl, n=2, words=1, unwind=8, Sem::SST, Enc::ExpCo, Kind::DC, Pres::Plain, cert=false, ANSWER, qs=[[1]], fault=0, codes=[2]);
-static_harness!(c04_t_sst_dc_exp_n2g2_b_pl_cert, n=2, words=1, unwind=8, Sem::SST, Enc::ExpCo, Kind::DC, Pres::Plain, cert=true, CERT, qs=[[1]], fault=0, codes=[2]);
 static_harness!(c01_q_stg_se_acf_n2g2_x_pl, n=2, words=4, unwind=10, Sem::STG, Enc::AuxCf, Kind::SE, Pres::Plain, cert=false, ANSWER, qs=[[]], fault=0, codes=[2]);
 static_harness!(c03_q_stg_ds_acf_n2g2_a_pl, n=2, words=4, unwind=10, Sem::STG, Enc::AuxCf, Kind::DS, Pres::Plain, cert=false, ANSWER, qs=[[0]], fault=0, codes=[2]);
 static_harness!(c04_q_stg_ds_acf_n2g2_a_pl_cert, n=2, words=4, unwind=10, Sem::STG, Enc::AuxCf, Kind::DS, Pres::Plain, cert=true, CERT, qs=[[0]], fault=0, codes=[2]);
@@ -376,26 +356,16 @@ static_harness!(c02_t_stg_dc_acf_n2g0_b_pl, n=2, words=4, unwind=10, Sem::STG, E
 static_harness!(c04_t_stg_dc_acf_n2g0_b_pl_cert, n=2, words=4, unwind=10, Sem::STG, Enc::AuxCf, Kind::DC, Pres::Plain, cert=true, CERT, qs=[[1]], fault=0, codes=[0]);
 static_harness!(c01_t_stg_se_acf_n3g34_x_pl, n=3, words=32, unwind=13, Sem::STG, Enc::AuxCf, Kind::SE, Pres::Plain, cert=false, ANSWER, qs=[[]], fault=0, codes=[34]);
 static_harness!(c03_t_stg_ds_acf_n3g34_a_pl, n=3, words=32, unwind=13, Sem::STG, Enc::AuxCf, Kind::DS, Pres::Plain, cert=false, ANSWER, qs=[[0]], fault=0, codes=[34]);
-static_harness!(c04_t_stg_ds_acf_n3g34_a_pl_cert, n=3, words=32, unwind=13, Sem::STG, Enc::AuxCf, Kind::DS, Pres::Plain, cert=true, CERT, qs=[[0]], fault=0, codes=[34]);
 static_harness!(c02_t_stg_dc_acf_n3g34_a_pl, n=3, words=32, unwind=13, Sem::STG, Enc::AuxCf, Kind::DC, Pres::Plain, cert=false, ANSWER, qs=[[0]], fault=0, codes=[34]);
-static_harness!(c04_t_stg_dc_acf_n3g34_a_pl_cert, n=3, words=32, unwind=13, Sem::STG, Enc::AuxCf, Kind::DC, Pres::Plain, cert=true, CERT, qs=[[0]], fault=0, codes=[34]);
 static_harness!(c03_t_stg_ds_acf_n3g34_b_pl, n=3, words=32, unwind=13, Sem::STG, Enc::AuxCf, Kind::DS, Pres::Plain, cert=false, ANSWER, qs=[[1]], fault=0, codes=[34]);
-static_harness!(c04_t_stg_ds_acf_n3g34_b_pl_cert, n=3, words=32, unwind=13, Sem::STG, Enc::AuxCf, Kind::DS, Pres::Plain, cert=true, CERT, qs=[[1]], fault=0, codes=[34]);
 static_harness!(c02_t_stg_dc_acf_n3g34_b_pl, n=3, words=32, unwind=13, Sem::STG, Enc::AuxCf, Kind::DC, Pres::Plain, cert=false, ANSWER, qs=[[1]], fault=0, codes=[34]);
-static_harness!(c04_t_stg_dc_acf_n3g34_b_pl_cert, n=3, words=32, unwind=13, Sem::STG, Enc::AuxCf, Kind::DC, Pres::Plain, cert=true, CERT, qs=[[1]], fault=0, codes=[34]);
 static_harness!(c03_t_stg_ds_acf_n3g34_c_pl, n=3, words=32, unwind=13, Sem::STG, Enc::AuxCf, Kind::DS, Pres::Plain, cert=false, ANSWER, qs=[[2]], fault=0, codes=[34]);
-static_harness!(c04_t_stg_ds_acf_n3g34_c_pl_cert, n=3, words=32, unwind=13, Sem::STG, Enc::AuxCf, Kind::DS, Pres::Plain, cert=true, CERT, qs=[[2]], fault=0, codes=[34]);
 static_harness!(c02_t_stg_dc_acf_n3g34_c_pl, n=3, words=32, unwind=13, Sem::STG, Enc::AuxCf, Kind::DC, Pres::Plain, cert=false, ANSWER, qs=[[2]], fault=0, codes=[34]);
-static_harness!(c04_t_stg_dc_acf_n3g34_c_pl_cert, n=3, words=32, unwind=13, Sem::STG, Enc::AuxCf, Kind::DC, Pres::Plain, cert=true, CERT, qs=[[2]], fault=0, codes=[34]);
 static_harness!(c01_t_stg_se_ecf_n2g2_x_pl, n=2, words=1, unwind=8, Sem::STG, Enc::ExpCf, Kind::SE, Pres::Plain, cert=false, ANSWER, qs=[[]], fault=0, codes=[2]);
 static_harness!(c03_t_stg_ds_ecf_n2g2_a_pl, n=2, words=1, unwind=8, Sem::STG, Enc::ExpCf, Kind::DS, Pres::Plain, cert=false, ANSWER, qs=[[0]], fault=0, codes=[2]);
-static_harness!(c04_t_stg_ds_ecf_n2g2_a_pl_cert, n=2, words=1, unwind=8, Sem::STG, Enc::ExpCf, Kind::DS, Pres::Plain, cert=true, CERT, qs=[[0]], fault=0, codes=[2]);
 static_harness!(c02_t_stg_dc_ecf_n2g2_a_pl, n=2, words=1, unwind=8, Sem::STG, Enc::ExpCf, Kind::DC, Pres::Plain, cert=false, ANSWER, qs=[[0]], fault=0, codes=[2]);
-static_harness!(c04_t_stg_dc_ecf_n2g2_a_pl_cert, n=2, words=1, unwind=8, Sem::STG, Enc::ExpCf, Kind::DC, Pres::Plain, cert=true, CERT, qs=[[0]], fault=0, codes=[2]);
 static_harness!(c03_t_stg_ds_ecf_n2g2_b_pl, n=2, words=1, unwind=8, Sem::STG, Enc::ExpCf, Kind::DS, Pres::Plain, cert=false, ANSWER, qs=[[1]], fault=0, codes=[2]);
-static_harness!(c04_t_stg_ds_ecf_n2g2_b_pl_cert, n=2, words=1, unwind=8, Sem::STG, Enc::ExpCf, Kind::DS, Pres::Plain, cert=true, CERT, qs=[[1]], fault=0, codes=[2]);
 static_harness!(c02_t_stg_dc_ecf_n2g2_b_pl, n=2, words=1, unwind=8, Sem::STG, Enc::ExpCf, Kind::DC, Pres::Plain, cert=false, ANSWER, qs=[[1]], fault=0, codes=[2]);
-static_harness!(c04_t_stg_dc_ecf_n2g2_b_pl_cert, n=2, words=1, unwind=8, Sem::STG, Enc::ExpCf, Kind::DC, Pres::Plain, cert=true, CERT, qs=[[1]], fault=0, codes=[2]);
 static_harness!(c01_q_id_se_aux_n2g2_x_pl, n=2, words=2, unwind=9, Sem::ID, Enc::AuxCo, Kind::SE, Pres::Plain, cert=false, ANSWER, qs=[[]], fault=0, codes=[2]);
 static_harness!(c03_q_id_ds_aux_n2g2_a_pl, n=2, words=2, unwind=9, Sem::ID, Enc::AuxCo, Kind::DS, Pres::Plain, cert=false, ANSWER, qs=[[0]], fault=0, codes=[2]);
 static_harness!(c04_q_id_ds_aux_n2g2_a_pl_cert, n=2, words=2, unwind=9, Sem::ID, Enc::AuxCo, Kind::DS, Pres::Plain, cert=true, CERT, qs=[[0]], fault=0, codes=[2]);
@@ -416,26 +386,16 @@ static_harness!(c02_t_id_dc_aux_n2g0_b_pl, n=2, words=2, unwind=9, Sem::ID, Enc:
 static_harness!(c04_t_id_dc_aux_n2g0_b_pl_cert, n=2, words=2, unwind=9, Sem::ID, Enc::AuxCo, Kind::DC, Pres::Plain, cert=true, CERT, qs=[[1]], fault=0, codes=[0]);
 static_harness!(c01_t_id_se_aux_n3g34_x_pl, n=3, words=8, unwind=11, Sem::ID, Enc::AuxCo, Kind::SE, Pres::Plain, cert=false, ANSWER, qs=[[]], fault=0, codes=[34]);
 static_harness!(c03_t_id_ds_aux_n3g34_a_pl, n=3, words=8, unwind=11, Sem::ID, Enc::AuxCo, Kind::DS, Pres::Plain, cert=false, ANSWER, qs=[[0]], fault=0, codes=[34]);
-static_harness!(c04_t_id_ds_aux_n3g34_a_pl_cert, n=3, words=8, unwind=11, Sem::ID, Enc::AuxCo, Kind::DS, Pres::Plain, cert=true, CERT, qs=[[0]], fault=0, codes=[34]);
 static_harness!(c02_t_id_dc_aux_n3g34_a_pl, n=3, words=8, unwind=11, Sem::ID, Enc::AuxCo, Kind::DC, Pres::Plain, cert=false, ANSWER, qs=[[0]], fault=0, codes=[34]);
-static_harness!(c04_t_id_dc_aux_n3g34_a_pl_cert, n=3, words=8, unwind=11, Sem::ID, Enc::AuxCo, Kind::DC, Pres::Plain, cert=true, CERT, qs=[[0]], fault=0, codes=[34]);
 static_harness!(c03_t_id_ds_aux_n3g34_b_pl, n=3, words=8, unwind=11, Sem::ID, Enc::AuxCo, Kind::DS, Pres::Plain, cert=false, ANSWER, qs=[[1]], fault=0, codes=[34]);
-static_harness!(c04_t_id_ds_aux_n3g34_b_pl_cert, n=3, words=8, unwind=11, Sem::ID, Enc::AuxCo, Kind::DS, Pres::Plain, cert=true, CERT, qs=[[1]], fault=0, codes=[34]);
 static_harness!(c02_t_id_dc_aux_n3g34_b_pl, n=3, words=8, unwind=11, Sem::ID, Enc::AuxCo, Kind::DC, Pres::Plain, cert=false, ANSWER, qs=[[1]], fault=0, codes=[34]);
-static_harness!(c04_t_id_dc_aux_n3g34_b_pl_cert, n=3, words=8, unwind=11, Sem::ID, Enc::AuxCo, Kind::DC, Pres::Plain, cert=true, CERT, qs=[[1]], fault=0, codes=[34]);
 static_harness!(c03_t_id_ds_aux_n3g34_c_pl, n=3, words=8, unwind=11, Sem::ID, Enc::AuxCo, Kind::DS, Pres::Plain, cert=false, ANSWER, qs=[[2]], fault=0, codes=[34]);
-static_harness!(c04_t_id_ds_aux_n3g34_c_pl_cert, n=3, words=8, unwind=11, Sem::ID, Enc::AuxCo, Kind::DS, Pres::Plain, cert=true, CERT, qs=[[2]], fault=0, codes=[34]);
 static_harness!(c02_t_id_dc_aux_n3g34_c_pl, n=3, words=8, unwind=11, Sem::ID, Enc::AuxCo, Kind::DC, Pres::Plain, cert=false, ANSWER, qs=[[2]], fault=0, codes=[34]);
-static_harness!(c04_t_id_dc_aux_n3g34_c_pl_cert, n=3, words=8, unwind=11, Sem::ID, Enc::AuxCo, Kind::DC, Pres::Plain, cert=true, CERT, qs=[[2]], fault=0, codes=[34]);
 static_harness!(c01_t_id_se_exp_n2g2_x_pl, n=2, words=1, unwind=7, Sem::ID, Enc::ExpCo, Kind::SE, Pres::Plain, cert=false, ANSWER, qs=[[]], fault=0, codes=[2]);
 static_harness!(c03_t_id_ds_exp_n2g2_a_pl, n=2, words=1, unwind=7, Sem::ID, Enc::ExpCo, Kind::DS, Pres::Plain, cert=false, ANSWER, qs=[[0]], fault=0, codes=[2]);
-static_harness!(c04_t_id_ds_exp_n2g2_a_pl_cert, n=2, words=1, unwind=7, Sem::ID, Enc::ExpCo, Kind::DS, Pres::Plain, cert=true, CERT, qs=[[0]], fault=0, codes=[2]);
 static_harness!(c02_t_id_dc_exp_n2g2_a_pl, n=2, words=1, unwind=7, Sem::ID, Enc::ExpCo, Kind::DC, Pres::Plain, cert=false, ANSWER, qs=[[0]], fault=0, codes=[2]);
-static_harness!(c04_t_id_dc_exp_n2g2_a_pl_cert, n=2, words=1, unwind=7, Sem::ID, Enc::ExpCo, Kind::DC, Pres::Plain, cert=true, CERT, qs=[[0]], fault=0, codes=[2]);
 static_harness!(c03_t_id_ds_exp_n2g2_b_pl, n=2, words=1, unwind=7, Sem::ID, Enc::ExpCo, Kind::DS, Pres::Plain, cert=false, ANSWER, qs=[[1]], fault=0, codes=[2]);
-static_harness!(c04_t_id_ds_exp_n2g2_b_pl_cert, n=2, words=1, unwind=7, Sem::ID, Enc::ExpCo, Kind::DS, Pres::Plain, cert=true, CERT, qs=[[1]], fault=0, codes=[2]);
 static_harness!(c02_t_id_dc_exp_n2g2_b_pl, n=2, words=1, unwind=7, Sem::ID, Enc::ExpCo, Kind::DC, Pres::Plain, cert=false, ANSWER, qs=[[1]], fault=0, codes=[2]);
-static_harness!(c04_t_id_dc_exp_n2g2_b_pl_cert, n=2, words=1, unwind=7, Sem::ID, Enc::ExpCo, Kind::DC, Pres::Plain, cert=true, CERT, qs=[[1]], fault=0, codes=[2]);
 static_fault_harness!(c17_q_pr_se_adm_n2g2_x_pl_f1s, n=2, words=2, unwind=9, Sem::PR, Enc::AuxAdm, Kind::SE, Pres::Plain, cert=false, FAULT, qs=[[]], fault=101, codes=[2]);
 static_fault_harness!(c17_t_pr_ds_adm_n2g2_b_pl_cert_f1s, n=2, words=2, unwind=9, Sem::PR, Enc::AuxAdm, Kind::DS, Pres::Plain, cert=true, FAULT, qs=[[1]], fault=101, codes=[2]);
 static_fault_harness!(c17_t_sst_se_aux_n2g2_x_pl_f1s, n=2, words=4, unwind=10, Sem::SST, Enc::AuxCo, Kind::SE, Pres::Plain, cert=false, FAULT, qs=[[]], fault=101, codes=[2]);
